@@ -166,7 +166,7 @@ func checkHdrBlockAt(w *core.Worker, m0 *gen.MsgSpec, hcap int, withPV bool, cut
 func RunC07(r *core.Run) {
 	r.Rule = "case = one grammar-generated header block (1..60 logical lines: known names in any letter case / compact forms, token names, near-miss names; SP/HT before the colon; 0..n value tokens separated by SP/HT/folds; CRLF, CR and LF line ends mixed; empty values; repeated headers) x header capacity 0..N+1 x {pure tokeniser, typed bodies} x {one-shot, chunked} x {new list, list used for an abandoned other block and Reset()}; expected by construction: verdict OK, offset after the blank line, N = number of logical lines, PFlags = set of types (independent name table), every stored header's Type/Name/Val (Val = first..last non-whitespace byte, empty value = empty field), GetHdr(t) = first header of type t or Missing(); non-trivial = block accepted and compared; distinct by hash(block, capacity, mode)"
 	r.Assume = []string{"a lone CR line end is never followed by a line starting with LF (the concatenation would be a CRLF)", "typed headers (From, To, Call-ID, CSeq, Content-Length, Contact, Expires, P-Asserted-Identity) carry values that are well formed for their typed parser"}
-	n := r.Pick(800000, 12000000)
+	n := r.Pick(800000, 48000000)
 	r.Stage("generated-blocks", n, func(w *core.Worker, idx int64) {
 		rr := core.NewRand(r.Seed, 0xC07, 1, uint64(idx))
 		o := gen.MsgOpts{MinHdrs: 1, MaxHdrs: 12, MultiNA: 40, NoBody: rr.Bool()}
@@ -453,7 +453,7 @@ func RunC05(r *core.Run) {
 	r.Rule = "case = one message that parses successfully (grammar-generated with repeated / multi-value Contact, P-Asserted-Identity, From headers emphasised, or a mutated corpus message that is still accepted), flags 0..7, any capacities, one-shot or chunked, on a new object or on one used for an abandoned other message and Reset()/Init(); the structural invariant is evaluated on the result: all fields inside [start, returned offset); first-line fields ordered; every stored header's Name at the start of and its Val inside that header's OWN logical line (line extents from an independent splitter), after the colon, trimmed (an empty value is the empty field); every first-of-type shortcut GetHdr(t) (also for headers beyond the array) has its Name at a line start and its Val inside that line; Name/URI/Params/Tag inside V, Tag inside Params, CSeq number before method inside the CSeq value; typed values equal the first header of their type's Val; every stored contact / identity value lies inside a Contact / PAI header value; Body starts after the blank line and ends at the returned offset; RawMsg == buf[start:offset], Buf == buf[:offset]; non-trivial = accepted messages; distinct by hash"
 	r.Assume = []string{"the independent splitter (ref.HeaderLines) implements: a logical line ends at CRLF / CR / LF not followed by SP or HT"}
 	corpus := loadCorpus()
-	n := r.Pick(1500000, 20000000)
+	n := r.Pick(1500000, 160000000)
 	r.Stage("messages", n, func(w *core.Worker, idx int64) {
 		rr := core.NewRand(r.Seed, 0xC05, 1, uint64(idx))
 		var in []byte
